@@ -1,5 +1,5 @@
 /-
-  The stream invariant at the granularity of single receive operations (`Model/OVecStep`): `SInv` = the stream
+  The stream invariant at the granularity of single receive operations (`Model/OVecStep`): `StInv` = the stream
   invariant `VInv` of the underlying world (with the ghost replica following the cursor) + one clause per phase of a
   receiver that is inside a `poll_next`. Preserved by every receive operation (`sinv_micro`) and by every other event
   happening in between (`sinv_ev`), hence along every interleaving (`sinv_run`).
@@ -43,6 +43,31 @@ theorem skipped_one {α} (log : List (Msg α)) (n : Nat) (m : Msg α) (h : log[n
   unfold skipped
   rw [List.drop_eq_getElem_cons hlt]
   simp [hm]
+
+theorem skipped_snoc {α} (log : List (Msg α)) (a n : Nat) (m : Msg α) (han : a ≤ n) (h : log[n]? = some m) :
+    skipped log a (n + 1) = skipped log a n ++ m.diffs := by
+  have hlt : n < log.length := by
+    rcases List.getElem?_eq_some_iff.mp h with ⟨g, _⟩; exact g
+  have hm : log[n] = m := by
+    rcases List.getElem?_eq_some_iff.mp h with ⟨_, g⟩; exact g
+  unfold skipped
+  have e1 : n + 1 - a = (n - a) + 1 := by omega
+  have hlt' : n - a < (log.drop a).length := by simp; omega
+  rw [e1, List.take_succ_eq_append_getElem hlt', List.flatMap_append]
+  have : (log.drop a)[n - a] = m := by
+    simp only [List.getElem_drop]
+    have : a + (n - a) = n := by omega
+    simp [this, hm]
+  simp [this]
+
+/-- what lies between two cursor positions does not change when the log grows -/
+theorem skipped_append {α} (log t : List (Msg α)) (a b : Nat) (hb : b ≤ log.length) : skipped (log ++ t) a b = skipped log a b := by
+  unfold skipped
+  congr 1
+  by_cases hab : a ≤ b
+  · rw [List.drop_append_of_le_length (by omega), List.take_append_of_le_length (by simp; omega)]
+  · have : b - a = 0 := by omega
+    simp [this]
 
 /-- moving the cursor from `a` to `b` with the passed messages replayed on the replica keeps "replica + owed = contents" -/
 theorem recv_advance {α} (log : List (Msg α)) (pre : List (Diff α)) (rep v : List α) (a b : Nat) (hab : a ≤ b)
@@ -91,23 +116,25 @@ def PhOK {α} (p : Phase α) (r : Sub α) (log : List (Msg α)) (vals : List α)
   match p with
   | .idle => True
   | .drain acc shown =>
-    r.batched = true ∧ acc ≠ [] ∧ ∃ sh rep, shown = some sh ∧ r.replica = some rep ∧ applyAll acc sh = some rep
+    r.batched = true ∧ acc ≠ [] ∧ (∃ sh rep, shown = some sh ∧ r.replica = some rep ∧ applyAll acc sh = some rep) ∧
+      -- the batch consists of WHOLE messages: everything between the cursor position at which the poll started and now
+      ∃ a, a ≤ r.next ∧ acc = skipped log a r.next
   | .lag none => r.rest = [] ∧ r.next < log.length
   | .lag (some m) => r.rest = [] ∧ (r.next = log.length → m.state = vals)
 
-structure SInv {α} (s : SOV α) : Prop where
+structure StInv {α} (s : SOV α) : Prop where
   base : VInv s.ov
   phase : ∀ (i : Nat) (r : Sub α), s.ov.subs[i]? = some r → r.alive = true → PhOK (s.ph i) r s.ov.log s.ov.vals
   fresh : ∀ i, s.ov.subs.length ≤ i → s.ph i = .idle
 
-theorem sinv_init {α} (c : Nat) (hc : c ≤ 2 ^ 64) : SInv (SOV.init (α := α) c) :=
+theorem sinv_init {α} (c : Nat) (hc : c ≤ 2 ^ 64) : StInv (SOV.init (α := α) c) :=
   ⟨vinv_new c hc, by intro i r h; simp [SOV.init, OV.new] at h, by intro i _; rfl⟩
 
-theorem sinv_put {α} (s : SOV α) (hi : SInv s) (i : Nat) (r r' : Sub α) (p : Phase α) (hs : s.ov.subs[i]? = some r)
+theorem sinv_put {α} (s : SOV α) (hi : StInv s) (i : Nat) (r r' : Sub α) (p : Phase α) (hs : s.ov.subs[i]? = some r)
     (ha : r.alive = true) (f1 : r'.alive = true) (f4 : r.next ≤ r'.next) (f5 : r'.next ≤ s.ov.log.length)
     (fb : r'.batched = true → r'.rest = [])
     (hrep : ∃ rep, r'.replica = some rep ∧ applyAll (owed s.ov.log r') rep = some s.ov.vals)
-    (hp : PhOK p r' s.ov.log s.ov.vals) : SInv (s.put i r' p) := by
+    (hp : PhOK p r' s.ov.log s.ov.vals) : StInv (s.put i r' p) := by
   have hil : i < s.ov.subs.length := by
     rcases List.getElem?_eq_some_iff.mp hs with ⟨g, _⟩; exact g
   refine ⟨vinv_set_sub s.ov hi.base i r r' hs ha f1 f4 f5 fb hrep, ?_, ?_⟩
@@ -152,8 +179,8 @@ theorem last_of_index {α} (log : List (Msg α)) (n : Nat) (m : Msg α) (hm : lo
   rw [this]; exact hm
 
 /-- **Every receive operation keeps the invariant** — whatever happened since the previous one. -/
-theorem sinv_micro {α} (s s' : SOV α) (i : Nat) (k : RK) (it : Option (Item α)) (hi : SInv s)
-    (h : s.micro i = some (k, it, s')) : SInv s' := by
+theorem sinv_micro {α} (s s' : SOV α) (i : Nat) (k : RK) (it : Option (Item α)) (hi : StInv s)
+    (h : s.micro i = some (k, it, s')) : StInv s' := by
   unfold SOV.micro at h
   cases hs : s.ov.subs[i]? with
   | none => simp [hs] at h
@@ -194,7 +221,8 @@ theorem sinv_micro {α} (s s' : SOV α) (i : Nat) (k : RK) (it : Option (Item α
               refine sinv_put s hi i r _ _ hs ha (by first | rfl | simp [ha]) (by simp) (by simp; omega) ?_ ?_ ?_
               · intro _; first | exact hr | rfl
               · exact ⟨mid, by simp [g3, e1], by simpa [owed, hr] using e2⟩
-              · exact ⟨(by first | exact hb | rfl), hne m (List.mem_of_getElem? hm), rep, mid, g3, by simp [g3, e1], e1⟩
+              · exact ⟨(by first | exact hb | rfl), hne m (List.mem_of_getElem? hm), ⟨rep, mid, g3, by simp [g3, e1], e1⟩,
+                  r.next, by simp, (skipped_one _ _ m hm).symm⟩
             | false =>
               simp only [hb, Bool.false_eq_true, if_false] at h
               cases hmd : m.diffs with
@@ -230,7 +258,7 @@ theorem sinv_micro {α} (s s' : SOV α) (i : Nat) (k : RK) (it : Option (Item α
             · trivial
       | drain acc shown =>
         simp only [hp] at h hph
-        obtain ⟨hb, hacc, sh, rep0, hsh, hrep0, happ⟩ := hph
+        obtain ⟨hb, hacc, ⟨sh, rep0, hsh, hrep0, happ⟩, a0, ha0, hwhole⟩ := hph
         have hr : r.rest = [] := g1 hb
         simp only [owed, hr, List.nil_append] at g4
         have hrr : rep0 = rep := by rw [g3] at hrep0; exact (Option.some.inj hrep0).symm
@@ -242,8 +270,9 @@ theorem sinv_micro {α} (s s' : SOV α) (i : Nat) (k : RK) (it : Option (Item α
           refine sinv_put s hi i r _ _ hs ha (by first | rfl | simp [ha]) (by simp) (by simp; omega) ?_ ?_ ?_
           · intro _; first | exact hr | rfl
           · exact ⟨mid, by simp [g3, e1], by simpa [owed, hr] using e2⟩
-          · refine ⟨(by first | exact hb | rfl), by simp [hacc], sh, mid, hsh, by simp [g3, e1], ?_⟩
-            rw [applyAll_append, happ]; simpa using e1
+          · refine ⟨(by first | exact hb | rfl), by simp [hacc], ⟨sh, mid, hsh, by simp [g3, e1], ?_⟩, a0, by simp; omega, ?_⟩
+            · rw [applyAll_append, happ]; simpa using e1
+            · rw [hwhole]; exact (skipped_snoc _ a0 r.next m ha0 hm).symm
         · rw [ht] at h
           simp at h; obtain ⟨-, -, rfl⟩ := h
           obtain ⟨mid, e1, e2⟩ := adv_lag _ rep0 _ r.next (s.ov.log.length - s.ov.B) (by omega) g4
@@ -314,6 +343,7 @@ theorem sinv_micro {α} (s s' : SOV α) (i : Nat) (k : RK) (it : Option (Item α
     come back to life); the log only grows; and for a receiver alive in `s'` either nothing was published and the
     contents are the same, or the log is strictly longer. -/
 structure Ext {α} (s s' : OV α) : Prop where
+  pre : ∃ t, s'.log = s.log ++ t
   len : s.log.length ≤ s'.log.length
   slen : s.subs.length ≤ s'.subs.length
   subs : ∀ (j : Nat) (r : Sub α), s.subs[j]? = some r →
@@ -323,10 +353,10 @@ structure Ext {α} (s s' : OV α) : Prop where
     (s'.log = s.log ∧ s'.vals = s.vals) ∨ s.log.length < s'.log.length
 
 theorem ext_refl {α} (s : OV α) : Ext s s :=
-  ⟨Nat.le_refl _, Nat.le_refl _, fun j r h => ⟨r, h, rfl, rfl, rfl, rfl, id⟩, fun _ _ _ _ _ => Or.inl ⟨rfl, rfl⟩⟩
+  ⟨⟨[], by simp⟩, Nat.le_refl _, Nat.le_refl _, fun j r h => ⟨r, h, rfl, rfl, rfl, rfl, id⟩, fun _ _ _ _ _ => Or.inl ⟨rfl, rfl⟩⟩
 
 theorem ext_trans {α} {a b c : OV α} (h1 : Ext a b) (h2 : Ext b c) : Ext a c := by
-  refine ⟨Nat.le_trans h1.len h2.len, Nat.le_trans h1.slen h2.slen, ?_, ?_⟩
+  refine ⟨(by obtain ⟨t1, e1⟩ := h1.pre; obtain ⟨t2, e2⟩ := h2.pre; exact ⟨t1 ++ t2, by rw [e2, e1, List.append_assoc]⟩), Nat.le_trans h1.len h2.len, Nat.le_trans h1.slen h2.slen, ?_, ?_⟩
   · intro j r hj
     obtain ⟨r1, e1, f1, f2, f3, f4, f5⟩ := h1.subs j r hj
     obtain ⟨r2, e2, g1, g2, g3, g4, g5⟩ := h2.subs j r1 e1
@@ -351,7 +381,7 @@ theorem ext_trans {α} {a b c : OV α} (h1 : Ext a b) (h2 : Ext b c) : Ext a c :
 theorem ext_of_outside {α} (s s' : OV α) (h : s'.outside = s.outside) : Ext s s' := by
   simp only [OV.outside, Prod.mk.injEq] at h
   obtain ⟨hv, _, _, hl, hsb⟩ := h
-  refine ⟨by rw [hl]; exact Nat.le_refl _, by rw [hsb]; exact Nat.le_refl _, ?_, ?_⟩
+  refine ⟨⟨[], by simp [hl]⟩, by rw [hl]; exact Nat.le_refl _, by rw [hsb]; exact Nat.le_refl _, ?_, ?_⟩
   · intro j r hj; exact ⟨r, by rw [hsb]; exact hj, rfl, rfl, rfl, rfl, id⟩
   · intro _ _ _ _ _; exact Or.inl ⟨hl, hv⟩
 
@@ -360,13 +390,13 @@ theorem ext_send {α} (s : OV α) (v' : List α) (m : Msg α) : Ext s (({ s with
   have hrxeq : ({ s with vals := v' } : OV α).rxCount = s.rxCount := rfl
   by_cases hrx : s.rxCount ≠ 0
   · simp only [hrxeq, hrx, ne_eq, not_false_eq_true, if_true]
-    refine ⟨by simp [OV.unparkAll], by simp [OV.unparkAll], ?_, ?_⟩
+    refine ⟨⟨[m], by simp [OV.unparkAll]⟩, by simp [OV.unparkAll], by simp [OV.unparkAll], ?_, ?_⟩
     · intro j r hj
       exact ⟨{ r with waiting := false }, by simp [OV.unparkAll, hj], rfl, rfl, rfl, rfl, id⟩
     · intro _ _ _ _ _; right; simp [OV.unparkAll]
   · have hrx0 : s.rxCount = 0 := by simpa using hrx
     simp only [hrxeq, hrx0, ne_eq, not_true_eq_false, if_false]
-    refine ⟨Nat.le_refl _, Nat.le_refl _, fun j r hj => ⟨r, hj, rfl, rfl, rfl, rfl, id⟩, ?_⟩
+    refine ⟨⟨[], by simp⟩, Nat.le_refl _, Nat.le_refl _, fun j r hj => ⟨r, hj, rfl, rfl, rfl, rfl, id⟩, ?_⟩
     intro j r' _ hj ha
     exact absurd hrx0 (rx_of_alive s j r' hj ha)
 
@@ -381,7 +411,7 @@ theorem ext_direct {α} (s s' : OV α) (op : VOp α) (ret : Ret α) (w : List Na
     | none =>
       simp [hd] at h; obtain ⟨rfl, _, _⟩ := h
       have := (c05_exec_faithful op s.vals r he).2.1 hd
-      refine ⟨Nat.le_refl _, Nat.le_refl _, fun j r hj => ⟨r, hj, rfl, rfl, rfl, rfl, id⟩, ?_⟩
+      refine ⟨⟨[], by simp⟩, Nat.le_refl _, Nat.le_refl _, fun j r hj => ⟨r, hj, rfl, rfl, rfl, rfl, id⟩, ?_⟩
       intro _ _ _ _ _; exact Or.inl ⟨rfl, this⟩
     | some d =>
       simp [hd] at h; obtain ⟨rfl, _, _⟩ := h
@@ -407,7 +437,7 @@ theorem ext_forEach {α} (s : OV α) (decs : List (Dec α)) : Ext s (s.forEach d
     s.vals.length 0 decs (s, []) [] (ext_refl s)
 
 theorem ext_subscribe {α} (s : OV α) (b : Bool) : Ext s (s.subscribe b).1 := by
-  refine ⟨Nat.le_refl _, by simp [OV.subscribe], ?_, ?_⟩
+  refine ⟨⟨[], by simp [OV.subscribe]⟩, Nat.le_refl _, by simp [OV.subscribe], ?_, ?_⟩
   · intro j r hj
     have hjl : j < s.subs.length := by
       rcases List.getElem?_eq_some_iff.mp hj with ⟨g, _⟩; exact g
@@ -415,7 +445,7 @@ theorem ext_subscribe {α} (s : OV α) (b : Bool) : Ext s (s.subscribe b).1 := b
   · intro _ _ _ _ _; exact Or.inl ⟨rfl, rfl⟩
 
 theorem ext_dropSub {α} (s : OV α) (i : Nat) : Ext s (s.dropSub i) := by
-  refine ⟨Nat.le_refl _, by simp [OV.dropSub], ?_, ?_⟩
+  refine ⟨⟨[], by simp [OV.dropSub]⟩, Nat.le_refl _, by simp [OV.dropSub], ?_, ?_⟩
   · intro j r hj
     by_cases hij : i = j
     · subst hij
@@ -425,7 +455,7 @@ theorem ext_dropSub {α} (s : OV α) (i : Nat) : Ext s (s.dropSub i) := by
   · intro _ _ _ _ _; exact Or.inl ⟨rfl, rfl⟩
 
 theorem ext_dropVec {α} (s : OV α) : Ext s s.dropVec.1 := by
-  refine ⟨Nat.le_refl _, by simp [OV.dropVec, OV.unparkAll], ?_, ?_⟩
+  refine ⟨⟨[], by simp [OV.dropVec, OV.unparkAll]⟩, Nat.le_refl _, by simp [OV.dropVec, OV.unparkAll], ?_, ?_⟩
   · intro j r hj
     exact ⟨{ r with waiting := false }, by simp [OV.dropVec, OV.unparkAll, hj], rfl, rfl, rfl, rfl, id⟩
   · intro _ _ _ _ _; exact Or.inl ⟨rfl, rfl⟩
@@ -438,7 +468,7 @@ theorem ext_txnCommit {α} (s : OV α) (hi : VInv s) : Ext s s.txnCommit.1 := by
     simp only
     by_cases hb : t.batch.isEmpty = true
     · simp only [hb, if_true]
-      refine ⟨Nat.le_refl _, Nat.le_refl _, fun j r hj => ⟨r, hj, rfl, rfl, rfl, rfl, id⟩, ?_⟩
+      refine ⟨⟨[], by simp⟩, Nat.le_refl _, Nat.le_refl _, fun j r hj => ⟨r, hj, rfl, rfl, rfl, rfl, id⟩, ?_⟩
       intro j r' _ hj ha
       have hrx := rx_of_alive s j r' hj ha
       have := hi.txn t ht hrx
@@ -448,7 +478,7 @@ theorem ext_txnCommit {α} (s : OV α) (hi : VInv s) : Ext s s.txnCommit.1 := by
       exact Or.inl ⟨rfl, this.symm⟩
     · simp only [hb]
       have := ext_send { s with txn := none } t.working { diffs := t.batch, many := true, state := t.working }
-      refine ⟨this.len, this.slen, this.subs, this.same⟩
+      refine ⟨this.pre, this.len, this.slen, this.subs, this.same⟩
 
 
 /-- every event other than a poll extends the world -/
@@ -521,7 +551,7 @@ def SOV.step {α} (s : SOV α) : SEv α → SOV α
   | .micro i => match s.micro i with | some (_, _, s') => s' | none => s
 
 theorem phok_ext {α} (p : Phase α) (r r' : Sub α) (s s' : OV α) (h : PhOK p r s.log s.vals)
-    (hlen : s.log.length ≤ s'.log.length) (hn : r.next ≤ s.log.length)
+    (hpre : ∃ t, s'.log = s.log ++ t) (hlen : s.log.length ≤ s'.log.length) (hn : r.next ≤ s.log.length)
     (hsame : (s'.log = s.log ∧ s'.vals = s.vals) ∨ s.log.length < s'.log.length)
     (f1 : r'.next = r.next) (f2 : r'.rest = r.rest) (f3 : r'.replica = r.replica) (f4 : r'.batched = r.batched) :
     PhOK p r' s'.log s'.vals := by
@@ -529,7 +559,11 @@ theorem phok_ext {α} (p : Phase α) (r r' : Sub α) (s s' : OV α) (h : PhOK p 
   | idle => trivial
   | drain acc shown =>
     simp only [PhOK] at h ⊢
-    rw [f3, f4]; exact h
+    rw [f1, f3, f4]
+    obtain ⟨t, ht⟩ := hpre
+    refine ⟨h.1, h.2.1, h.2.2.1, ?_⟩
+    obtain ⟨a, ha, hw⟩ := h.2.2.2
+    exact ⟨a, ha, by rw [ht, skipped_append _ _ _ _ hn]; exact hw⟩
   | lag msg =>
     cases msg with
     | none =>
@@ -545,7 +579,7 @@ theorem phok_ext {α} (p : Phase α) (r r' : Sub α) (s s' : OV α) (h : PhOK p 
       · omega
 
 /-- the invariant is preserved by everything that is not a poll -/
-theorem sinv_of_ext {α} (s : SOV α) (ov' : OV α) (hi : SInv s) (hv : VInv ov') (hx : Ext s.ov ov') : SInv { s with ov := ov' } := by
+theorem sinv_of_ext {α} (s : SOV α) (ov' : OV α) (hi : StInv s) (hv : VInv ov') (hx : Ext s.ov ov') : StInv { s with ov := ov' } := by
   refine ⟨hv, ?_, ?_⟩
   · intro j r' hj ha'
     by_cases hjl : j < s.ov.subs.length
@@ -558,15 +592,15 @@ theorem sinv_of_ext {α} (s : SOV α) (ov' : OV α) (hi : SInv s) (hv : VInv ov'
       have ha := f5 ha'
       have hph := hi.phase j _ hb ha
       have hn := (hi.base.subs j _ hb ha).2.1
-      exact phok_ext _ _ _ s.ov ov' hph hx.len hn (hx.same j r2 hjl hj ha') f1 f2 f3 f4
+      exact phok_ext _ _ _ s.ov ov' hph hx.pre hx.len hn (hx.same j r2 hjl hj ha') f1 f2 f3 f4
     · have := hi.fresh j (by omega)
       show PhOK (s.ph j) r' ov'.log ov'.vals
       rw [this]; trivial
   · intro j hj
     exact hi.fresh j (Nat.le_trans hx.slen hj)
 
-theorem sinv_ev {α} (s : SOV α) (e : VEv α) (hi : SInv s) : SInv (s.ev e) := by
-  have key : ∀ e : VEv α, (∀ i, e ≠ .poll i) → SInv { s with ov := s.ov.vstep e } :=
+theorem sinv_ev {α} (s : SOV α) (e : VEv α) (hi : StInv s) : StInv (s.ev e) := by
+  have key : ∀ e : VEv α, (∀ i, e ≠ .poll i) → StInv { s with ov := s.ov.vstep e } :=
     fun e hne => sinv_of_ext s _ hi (vinv_vstep s.ov e hi.base) (ext_vstep s.ov e hi.base hne)
   cases e with
   | poll i => exact hi
@@ -588,7 +622,7 @@ theorem sinv_ev {α} (s : SOV α) (e : VEv α) (hi : SInv s) : SInv (s.ev e) := 
   | txnCommit => exact key _ (by intro j h; cases h)
 
 /-- **One step of the interleaved world — a receive operation of any receiver, or any other event — keeps the invariant.** -/
-theorem sinv_step {α} (s : SOV α) (e : SEv α) (hi : SInv s) : SInv (s.step e) := by
+theorem sinv_step {α} (s : SOV α) (e : SEv α) (hi : StInv s) : StInv (s.step e) := by
   cases e with
   | ev e => exact sinv_ev s e hi
   | micro i =>
@@ -598,8 +632,8 @@ theorem sinv_step {α} (s : SOV α) (e : SEv α) (hi : SInv s) : SInv (s.step e)
     | some p => obtain ⟨k, it, s'⟩ := p; exact sinv_micro s s' i k it hi h
 
 /-- … hence along every interleaving, from any capacity -/
-theorem sinv_run {α} (c : Nat) (hc : c ≤ 2 ^ 64) (evs : List (SEv α)) : SInv (evs.foldl SOV.step (SOV.init c)) := by
-  have key : ∀ (evs : List (SEv α)) (s : SOV α), SInv s → SInv (evs.foldl SOV.step s) := by
+theorem sinv_run {α} (c : Nat) (hc : c ≤ 2 ^ 64) (evs : List (SEv α)) : StInv (evs.foldl SOV.step (SOV.init c)) := by
+  have key : ∀ (evs : List (SEv α)) (s : SOV α), StInv s → StInv (evs.foldl SOV.step s) := by
     intro evs
     induction evs with
     | nil => intro s h; exact h
